@@ -5,6 +5,7 @@
 import UpdaterModel.Props.C04
 import UpdaterModel.Props.C04Eio
 import UpdaterModel.Props.C11
+import UpdaterModel.Props.C04Up
 import UpdaterModel.Props.C18
 
 namespace Updater.NonVacuity
@@ -84,6 +85,22 @@ example : (G11.established envN none {} (viewOfDisk dBoot)).map (·.1) = some 2 
 /-- C04: the hypotheses of `crash_in_progress` are met while patch 2 boots and its failure is reported. -/
 example : Settled dBoot cfg.version ∧ (loadPatchesState dBoot).booting = some m2 :=
   ⟨⟨_, rfl, rfl⟩, by simp [loadPatchesState, dBoot, d, JFile.getD]⟩
+
+def pInit : InitParams :=
+  { version := "1.0.0+1", storage := "s", cache := "c", libapps := ["l"],
+    yaml := some { appId := "app", channel := none, baseUrl := none, autoUpdate := none, key := none } }
+
+/-- C04 (`crash_then_other_release`): an update's rewrite of `state.json` cut short after the truncation is one of
+    the crash states the theorem quantifies over, and the directory was not a state of the other release. -/
+example : ∃ c, mkConfig pInit = some c ∧ c.version ≠ "2.0.0+1" ∧
+    (JFile.garbage, d.patchesJson) ∈ segCrashPairs (launchSegs envN c { disk := d, config := none, libs := [] } pInit
+      [.update none { resp := none, dl := none }]) ∧
+    ¬ SettledF (files d).1 "2.0.0+1" := by
+  refine ⟨_, rfl, by decide, by decide, ?_⟩
+  intro ⟨s, hs, hv⟩
+  simp only [files, d, JFile.ok.injEq] at hs
+  subst hs
+  exact absurd hv (by decide)
 
 /-- C04: launches consist of calls. -/
 example : ∀ op ∈ [Op.start, Op.update none { resp := none, dl := none }, Op.failure], LaunchOp op := by
